@@ -82,7 +82,7 @@ def gbSet (g : Gb) (index : Int) (name : Str) (content : List Str) (subs : List 
       | some (start, oldStop, _) =>
         let ls := g.lines.take start ++ ins ++ g.lines.drop oldStop
         let shift : Int := (ins.length : Int) - ((oldStop : Int) - start)
-        let pos := (shiftFrom (k + 1) shift g.pos).set k (start, start + ins.length, upper name)
+        let pos := (shiftFrom (k + 1) shift g.pos).set k (start, start + ins.length, upper (strip name))
         .ok ⟨ls, pos⟩
 
 /-- `__delitem__`. -/
@@ -107,13 +107,13 @@ def gbInsert (g : Gb) (index : Int) (name : Str) (content : List Str) (subs : Li
       let start := if k = 0 then 0 else match g.pos[k - 1]? with | some p => p.2.1 | none => 0
       let ls := g.lines.take start ++ ins ++ g.lines.drop start
       let pos := shiftFrom k ins.length g.pos
-      .ok ⟨ls, pos.take k ++ (start, start + ins.length, upper name) :: pos.drop k⟩
+      .ok ⟨ls, pos.take k ++ (start, start + ins.length, upper (strip name)) :: pos.drop k⟩
 
 def gbAppend (g : Gb) (name : Str) (content : List Str) (subs : List (Str × List Str)) : Except Err Gb :=
   gbInsert g g.pos.length name content subs
 
 def gbIndices (g : Gb) (name : Str) : List Nat :=
-  (g.pos.zipIdx.filter (fun p => p.1.2.2 = upper name)).map (·.2)
+  (g.pos.zipIdx.filter (fun p => p.1.2.2 = upper (strip name))).map (·.2)
 
 /-- `set_field`. -/
 def gbSetField (g : Gb) (name : Str) (content : List Str) (subs : List (Str × List Str)) : Except Err Gb :=
